@@ -164,6 +164,8 @@ pub fn adjust(cfg: &mut SwarmCfg, tier: &str, r: &mut Prng) {
             cfg.oracles = sv(&["agreement", "retention", "state-unchanged", "kdf-model", "record-crypto"]);
             cfg.faults = sv(&["A-PSK-MISSING", "A-PSK-DIFF", "N-REORD", "N-RACE", "B-FORGE"]);
             cfg.knobs.push(("psk".into(), 2));
+            cfg.knobs.push(("psk-templates".into(), 1));
+            cfg.oracles.push("proposal-agreement".into());
             cfg.n_parties = cfg.n_parties.clamp(3, 7);
             setw(cfg, "forge", 5);
             setw(cfg, "commit", 18);
@@ -729,6 +731,9 @@ pub fn adjust_commit(w: &mut World, _p: usize, _g: usize, spec: &mut CommitSpec)
         let q = if t == 8 { w.parties.len() - 1 } else { w.prng.usize_below(w.parties.len()) };
         spec.templates.push((t, q));
     }
+    if w.cfg.knob("psk-templates").is_some() && w.prng.chance(1, 8) {
+        spec.templates.push((14, w.prng.usize_below(3)));
+    }
     if w.cfg.knob("grow").is_some() {
         let n = w.parties.len();
         let latest = w.groups[_g].log.len() as u64;
@@ -819,6 +824,9 @@ pub fn prop_spec_override(
         let t = *w.prng.pick(&[8u8, 4, 10, 11, 12]);
         let q = if t == 8 { w.parties.len() - 1 } else { w.prng.usize_below(w.parties.len()) };
         return Some(PropSpec::Template { t, q });
+    }
+    if w.cfg.knob("psk-templates").is_some() && w.prng.chance(1, 10) {
+        return Some(PropSpec::Template { t: 14, q: w.prng.usize_below(3) });
     }
     if w.cfg.knob("psk") == Some(2) && w.prng.chance(1, 3) {
         return Some(if w.prng.chance(1, 2) {
